@@ -7,6 +7,8 @@ set -u
 V="$(cd "$(dirname "$0")/.." && pwd)"
 cd "$V"
 mkdir -p bin evidence replays .cache
+# one Coq build at a time (same lock file as harness/common.py Lock("coq"))
+if [ "${CBV_LOCKED:-}" != 1 ]; then exec 9>"$V/.cache/coq.lock"; flock 9; export CBV_LOCKED=1; fi
 
 coq_makefile_gen() {
   ( cd coq
